@@ -354,7 +354,7 @@ def main(argv):
             runs, exh = int(24 * a.scale), 4
         else:
             cfgs = (a.configs.split(",") if a.configs else ["default", "m51", "w32", "zz32", "avx2"])
-            runs, exh = int(600 * a.scale), 6
+            runs, exh = int(2400 * a.scale), 6
         exes = build_many(cfgs)
         m = run_sharded("c15", "gen", (runs, exh), [(c, exes[c]) for c in cfgs], a.seed, timeout=7200)
         rep.merge(m)
